@@ -67,6 +67,7 @@ type icptCase struct {
 	MediaSSRC uint32     `json:"media_ssrc"`
 	Writes    [][]byte   `json:"writes"`
 	Flags     []int      `json:"flags,omitempty"`
+	Reuse     int        `json:"reuse,omitempty"` // what the caller does with its header / payload memory (see caller)
 	Kinds     []int      `json:"kinds,omitempty"`
 	Outs      [][][]byte `json:"outs,omitempty"`
 }
@@ -92,7 +93,15 @@ func wireOf(h *rtp.Header, payload []byte, deprecatedPad byte) ([]byte, error) {
 // and checks that the wire form of that packet is the same bytes (the bytes Coq sees).
 func parse(b []byte, flag int) rtp.Packet {
 	var p rtp.Packet
-	buf := append([]byte(nil), b...)
+	parseInto(&p, append([]byte(nil), b...), b, flag)
+
+	return p
+}
+
+// parseInto does the work of parse on a packet value and a buffer the caller chose (buf holds a copy of
+// b): pion/rtp's Unmarshal re-uses the CSRC and Extensions arrays of *p and makes the payload and every
+// extension payload a sub-slice of buf.
+func parseInto(p *rtp.Packet, buf, b []byte, flag int) {
 	switch {
 	case flag == flagInPayload:
 		n, err := p.Header.Unmarshal(buf)
@@ -101,6 +110,7 @@ func parse(b []byte, flag int) rtp.Packet {
 		}
 		p.Payload = buf[n:]
 		p.Header.PaddingSize = 0
+		p.PaddingSize = 0 //nolint:staticcheck
 	case flag >= flagNoPBit:
 		c := flag - flagNoPBit
 		if err := p.Unmarshal(buf); err != nil || p.Header.Padding || len(p.Payload) < c {
@@ -108,6 +118,7 @@ func parse(b []byte, flag int) rtp.Packet {
 		}
 		p.Payload = p.Payload[:len(p.Payload)-c]
 		p.Header.PaddingSize = byte(c)
+		p.PaddingSize = 0 //nolint:staticcheck
 	default:
 		if err := p.Unmarshal(buf); err != nil {
 			panic(fmt.Sprintf("harness: generated packet does not unmarshal: %v", err))
@@ -123,8 +134,6 @@ func parse(b []byte, flag int) rtp.Packet {
 	if err != nil || string(m) != string(b) {
 		panic(fmt.Sprintf("harness: wire form of the rebuilt packet differs (flag %d): %v\n%x\n%x", flag, err, b, m))
 	}
-
-	return p
 }
 
 func obsOf(p rtp.Packet) repObs {
@@ -237,6 +246,95 @@ func (w *recWriter) Write(h *rtp.Header, payload []byte, _ interceptor.Attribute
 	return len(m), nil
 }
 
+// What the caller of the interceptor's writer does with the memory behind (header, payload).  The writer
+// contract (and the comment in BindLocalStream) is that all of it may be re-used as soon as Write
+// returns; the property speaks about the bytes that went on the wire, so every mode has the same
+// expected output.
+const (
+	reuseNone      = 0 // a fresh header, fresh CSRC / extension / payload memory for every Write (never touched again)
+	reuseUnmarshal = 1 // a forwarder: ONE rtp.Packet and ONE read buffer, packet.Unmarshal(buf) for every packet
+	//                    (pion/rtp re-uses the CSRC and Extensions arrays; payload and extension payloads alias buf)
+	reuseInPlace = 2 // a sender: ONE rtp.Header updated in place (CSRC values written into the same array,
+	//                  extensions replaced in the same array with SetExtension), ONE payload buffer
+)
+
+type caller struct {
+	mode    int
+	pkt     rtp.Packet // modes 1, 2: the one packet / header value the caller keeps
+	buf     []byte     // mode 1: the read buffer
+	payload []byte     // mode 2: the payload buffer
+}
+
+func newCaller(mode int) *caller {
+	return &caller{mode: mode, buf: make([]byte, 0, 4096), payload: make([]byte, 0, 2048)}
+}
+
+// next prepares (header, payload) for the packet with wire form b and hand-over flag fl.
+func (c *caller) next(b []byte, fl int) (*rtp.Header, []byte) {
+	switch c.mode {
+	case reuseUnmarshal:
+		c.buf = append(c.buf[:0], b...)
+		parseInto(&c.pkt, c.buf, b, fl)
+
+		return &c.pkt.Header, c.pkt.Payload
+	case reuseInPlace:
+		p := parse(b, fl)
+		csrc, exts := c.pkt.Header.CSRC[:0], c.pkt.Header.Extensions[:0]
+		c.pkt.Header = p.Header // the scalar fields
+		if len(p.Header.CSRC) > 0 || csrc != nil {
+			c.pkt.Header.CSRC = append(csrc, p.Header.CSRC...) // same array whenever it is large enough
+		}
+		c.pkt.Header.Extensions = exts // the same array, refilled
+		for _, id := range p.Header.GetExtensionIDs() {
+			if err := c.pkt.Header.SetExtension(id, p.Header.GetExtension(id)); err != nil {
+				c.pkt.Header.Extensions = p.Header.Extensions // a shape SetExtension refuses: as unmarshalled
+
+				break
+			}
+		}
+		c.payload = append(c.payload[:0], p.Payload...)
+		m, err := wireOf(&c.pkt.Header, c.payload, 0)
+		if err != nil || string(m) != string(b) {
+			panic(fmt.Sprintf("harness: wire form of the re-used header differs (flag %d): %v\n%x\n%x", fl, err, b, m))
+		}
+
+		return &c.pkt.Header, c.payload
+	default:
+		p := parse(b, fl)
+		hdr := p.Header
+
+		return &hdr, p.Payload
+	}
+}
+
+// after runs when Write has returned: the caller overwrites everything it owns (what a later packet
+// would do anyway, made independent of what the later packet happens to contain).
+func (c *caller) after() {
+	if c.mode == reuseNone {
+		return
+	}
+	h := &c.pkt.Header
+	for i := range h.CSRC {
+		h.CSRC[i] ^= 0xA5A5A5A5
+	}
+	for i := range c.buf {
+		c.buf[i] ^= 0x5A
+	}
+	for i := range c.payload {
+		c.payload[i] ^= 0x5A
+	}
+	if c.mode == reuseInPlace {
+		for _, id := range h.GetExtensionIDs() {
+			old := h.GetExtension(id)
+			repl := make([]byte, len(old))
+			for i := range old {
+				repl[i] = old[i] ^ 0x5A
+			}
+			_ = h.SetExtension(id, repl) // replaces the slice stored in the (re-used) Extensions array
+		}
+	}
+}
+
 func runIcpt(c icptCase) icptCase {
 	f, err := flexfec.NewFecInterceptor(flexfec.NumMediaPackets(c.NM), flexfec.NumFECPackets(c.NF))
 	if err != nil {
@@ -252,8 +350,9 @@ func runIcpt(c icptCase) icptCase {
 	}, w)
 	c.Kinds, c.Outs = nil, nil
 	fl := flagsOf(c.Flags, len(c.Writes))
+	cl := newCaller(c.Reuse)
 	for i, b := range c.Writes {
-		p := parse(b, fl[i])
+		hdr, payload := cl.next(b, fl[i])
 		w.got = nil
 		kind := func() (k int) {
 			defer func() {
@@ -261,13 +360,13 @@ func runIcpt(c icptCase) icptCase {
 					k = 2
 				}
 			}()
-			hdr := p.Header
-			if _, err := wr.Write(&hdr, p.Payload, nil); err != nil {
+			if _, err := wr.Write(hdr, payload, nil); err != nil {
 				panic(err)
 			}
 
 			return 1
 		}()
+		cl.after()
 		c.Kinds = append(c.Kinds, kind)
 		c.Outs = append(c.Outs, w.got)
 		if kind == 2 {
@@ -304,6 +403,7 @@ type shape struct {
 	big        bool // allow 1200 / 1500 byte payloads
 	direct     bool // packets are handed to EncodeFec as rtp.Packet values (the deprecated field is expressible)
 	inPayload  bool // some padded packets carry their padding inside the payload (chosen per case, 1 in 6)
+	rich       bool // CSRCs / header extensions on every second packet instead of every fourth
 }
 
 func genPayloadLen(r *rand.Rand, s shape) int {
@@ -338,7 +438,11 @@ func genPacket(r *rand.Rand, ssrc uint32, sn uint16, s shape, buckets map[string
 		p.Timestamp = []uint32{0, 0xFFFFFFFF, 0x80000000}[r.Intn(3)]
 	}
 	p.SSRC = ssrc
-	if r.Intn(4) == 0 {
+	csrcDen, extDen := 4, 8
+	if s.rich {
+		csrcDen, extDen = 2, 4
+	}
+	if r.Intn(csrcDen) == 0 {
 		n := 1 + r.Intn(3)
 		if r.Intn(10) == 0 {
 			n = 15
@@ -348,7 +452,7 @@ func genPacket(r *rand.Rand, ssrc uint32, sn uint16, s shape, buckets map[string
 		}
 		buckets["csrc"] = true
 	}
-	switch r.Intn(8) {
+	switch r.Intn(extDen) {
 	case 0:
 		for i, n := 0, 1+r.Intn(2); i < n; i++ {
 			pl := make([]byte, 1+r.Intn(6))
@@ -611,6 +715,11 @@ func genIcpt(r *rand.Rand, boundary bool) (icptCase, []string) {
 		nm = 0
 		b["nm=0"] = true
 	}
+	if r.Intn(2) == 0 { // the caller re-uses its header / payload memory between Writes
+		c.Reuse = 1 + r.Intn(2)
+		s.rich = true
+		b[[]string{"", "caller-reuses-packet-and-read-buffer", "caller-reuses-header-in-place"}[c.Reuse]] = true
+	}
 	c.NM = uint32(nm) //nolint:gosec
 	c.NF = pickN(r, nm, b)
 	if r.Intn(3) == 0 {
@@ -712,6 +821,7 @@ func main() {
 		"marker, any PT, version != 2; payload 0..48, separate histories with 1200/1500; base SN incl. wrap inside the batch; same shape again / shape change; "+
 		"gaps, swaps, empty batches); non-trivial = at least one repair packet emitted; "+
 		"icpt: real FecInterceptor bound to one stream, 1..4 batches of numMedia in {0,1,2,3,5,8,10,16,46,47,109,110} plus packets of "+
-		"other SSRCs and sequence gaps; non-trivial = at least one repair packet reached the writer",
+		"other SSRCs and sequence gaps; in half of the cases the caller keeps ONE rtp.Packet + read buffer (Unmarshal for every packet) or ONE rtp.Header "+
+		"updated in place (same CSRC / Extensions arrays, SetExtension on present ids, one payload buffer) and overwrites all of it when Write has returned; non-trivial = at least one repair packet reached the writer",
 		all, nil, nil)
 }
